@@ -246,6 +246,11 @@ fn present_case(seed: u64, trace: bool) -> CaseOut {
         out.inconclusive = Some("mutation cancelled itself".into());
         return out;
     }
+    if mutation != Mutation::None && new_tokens.iter().any(|t| t[..] == tok[..]) {
+        // (a splice whose head happens to agree with the other token's head *is* that other token)
+        out.inconclusive = Some("the mutation produced another genuine token".into());
+        return out;
+    }
     // ---- phase B: present it
     match from {
         From::Same => {}
